@@ -149,6 +149,15 @@ def _confirm_hang(ck, table, r):
 def replay_programs(ck, table, programs, label, jobs):
     out = os.path.join(ck.dir, f"replay_{label.replace('/', '_')}.ndjson")
     p = vlib.run_bin("jsep", [table, programs, out, str(jobs)], timeout=3400)
+    if p.returncode == 4:
+        # the watchdog saw no call complete for 150 s while calls were in flight: the process under test is wedged
+        # (e.g. a lock-order deadlock inside the stack blocks the runtime's worker threads). Not a verdict by itself -
+        # which call is responsible depends on a race - but say what was in flight.
+        stall = [l for l in p.stderr.splitlines() if l.startswith('{"') and '"stall"' in l]
+        info = json.loads(stall[-1])["inflight"][:6] if stall else []
+        ck.notes.append({"stall": label, "inflight": info})
+        raise vlib.ToolError(f"{label}: harness wedged, calls in flight: "
+                             + json.dumps([[x["mode"], x["pre"], x["step"], [c["op"] for c in x["calls"]]] for x in info]))
     if p.returncode != 0:
         raise vlib.ToolError(f"jsep replayer failed rc={p.returncode}: {p.stderr[-2000:]}")
     rows = vlib.read_ndjson(out)
